@@ -216,7 +216,7 @@ func checkC16(c *Ctx) {
 			if op == nil {
 				break
 			}
-			it := iterAt(target.pj, op.K)
+			it := editIter(target.pj, op.K, op.Path, r)
 			safeApply(op, &it)
 			ops = append(ops, name+":"+op.Desc)
 			if otherAfter := allViews(other.pj); otherAfter != otherBefore {
